@@ -103,7 +103,11 @@ fn main() {
             exec::ignore_sigxfsz();
             let case: Value = serde_json::from_str(&args[2]).expect("case json");
             let projects = corpus::load();
-            let inline = case.get("inline").and_then(gen::project_from_json);
+            let generated = case["project"].as_str().and_then(|id| {
+                let mut it = id.strip_prefix("gen/")?.split('/');
+                Some(gen::generate_project(it.next()?.parse().ok()?, it.next()?.parse().ok()?))
+            });
+            let inline = case.get("inline").and_then(gen::project_from_json).or(generated);
             let project = inline.as_ref().or_else(|| projects.iter().find(|p| p.id == case["project"].as_str().unwrap_or(""))).expect("project");
             let scratch = exec::Scratch::new();
             let r = match case["kind"].as_str().unwrap_or("") {
